@@ -224,8 +224,18 @@ type customErr struct{ n int }
 
 func (e customErr) Error() string { return fmt.Sprintf("custom %d", e.n) }
 
+type customSliceErr []string
+
+func (e customSliceErr) Error() string { return fmt.Sprint([]string(e)) }
+
 func tlPanicValue(r *Rng, id int) any {
-	switch r.Intn(6) {
+	switch r.Intn(9) {
+	case 6:
+		return []int{id, id} // uncomparable dynamic types: == on two such interface values panics
+	case 7:
+		return map[string]int{"id": id}
+	case 8:
+		return customSliceErr{fmt.Sprintf("field-%d", id)}
 	case 0:
 		return fmt.Sprintf("panic-%d", id)
 	case 1:
